@@ -173,8 +173,15 @@ fn cmd_reader(job: &Value) {
 fn cmd_writer(job: &Value) {
     let mut t = Trace::create(job["out"].as_str().unwrap());
     let mut run_id = 0usize;
+    // `skip_upto`: continue after a run that ended the process (allocation request beyond the cap, see alloc.rs)
+    let skip_upto = job["skip_upto"].as_u64().unwrap_or(0) as usize;
     for j in job["jobs"].as_array().unwrap() {
         run_id += 1;
+        if run_id <= skip_upto {
+            continue;
+        }
+        t.flush();
+        vharness::alloc::CURRENT_ID.store(run_id as u64, std::sync::atomic::Ordering::Relaxed);
         vharness::writers::run_writer(j, &mut t, run_id);
     }
     let lines = t.finish();
